@@ -424,6 +424,88 @@ def unit_fit_model(prop, tier=None, seed=None):
     return S.finish(replay=lambda ob: replay(ob))
 
 
+# =================================================================== fit_model: preprocessing keywords
+def unit_fit_model_preproc(prop, tier=None, seed=None):
+    """fit_model(preprocessing=..., preprocessing_options=...): whatever part of a preprocessing request is given, the
+    data that are fitted are preprocessed with it (the part not given is the curve's current one) BEFORE the fit --
+    otherwise results are shown for preprocessing settings other than the stored ones (C03) and the columns do not
+    depend on the options only (C06)."""
+    S = Session(prop, "fit_model.preprocessing_keywords", f"{MOD}:Indentation.fit_model")
+    st = {}
+
+    def setup(I):
+        fp, vals, pres, fpd, res = F.sym_fp(I, "old")
+        idnt, cls = _mk_indentation(I, fp)
+        cur_steps = F.sym_value(I, "preprocessing", "current").obj
+        cur_opts = F.sym_value(I, "preprocessing_options", "current").obj
+        idnt.attrs.update(preprocessing=cur_steps, preprocessing_options=cur_opts)
+        which = I.choose([z3.Bool("only_the_pipeline_given"), z3.Bool("only_the_options_given"),
+                          z3.Bool("pipeline_and_options_given")])
+        if which > 2:
+            raise sx.PathAbort()
+        kwargs = {}
+        if which in (0, 2):
+            kwargs["preprocessing"] = F.sym_value(I, "preprocessing", "kw").obj
+        if which in (1, 2):
+            kwargs["preprocessing_options"] = F.sym_value(I, "preprocessing_options", "kw").obj
+        calls, fitters = [], []
+
+        def apply_contract(I, self, preprocessing=None, options=None, ret_details=False):
+            calls.append(dict(preprocessing=preprocessing, options=options, fitters_before=len(fitters)))
+            return sx.SDict()
+        cls.ns["apply_preprocessing"] = sx.Builtin("Indentation.apply_preprocessing", apply_contract)
+        I.contracts["nanite.fit:guess_initial_parameters"] = \
+            lambda I, fv, a, k: F.sym_value(I, "params_initial", f"guess{len(calls)}").obj
+        fitcls = I.module("nanite.fit").env.vars["IndentationFitter"]
+        fpcls = I.module("nanite.fit").env.vars["FitProperties"]
+
+        def fitter_ctor(I, self, idnt_arg, **kw):
+            nfp = sx.Obj(fpcls)
+            nfp.map = sx.SDict()
+            for k in fpd:
+                e = fp.map.d.get(k)
+                if e is not None and e[0] is not False:
+                    nfp.map.d[k] = [e[0], e[1]]
+            nfp.map.d["hash"] = [True, sx.Opaque("hash-of-current-settings")]
+            self.attrs.update(fp=nfp, fit_curve=sx.Opaque("fit curve"), fit_residuals=sx.Opaque("fit residuals"),
+                              fit_range=sx.Opaque("fit range"), idnt=idnt_arg)
+            fitters.append(self)
+        fitcls.ns["__init__"] = sx.Builtin("IndentationFitter.__init__", fitter_ctor)
+
+        def fitter_fit(I, self):
+            for r in ("success", "params_fitted", "chi_sqr", "xmin", "xmax"):
+                self.attrs["fp"].map.d[r] = [True, sx.Opaque(f"result:{r}")]
+        fitcls.ns["fit"] = sx.Builtin("IndentationFitter.fit", fitter_fit)
+        st.update(idnt=idnt, kwargs=kwargs, calls=calls, fitters=fitters, cur_steps=cur_steps, cur_opts=cur_opts,
+                  which=which)
+        f, _ = cls.find("fit_model")
+        return sx.BoundMethod(idnt, f), [], kwargs
+
+    def post(S, out):
+        I = S.I
+        kwargs, calls = st["kwargs"], st["calls"]
+        case = {"given": sorted(kwargs), "outcome": repr(out), "apply_preprocessing_calls": len(calls)}
+        if out.kind != "return":
+            S.fail("returns", repr(out), case=case)
+            return
+        S.ok("returns")
+        wit = ["pipeline_only", "options_only", "both"][st["which"]]
+        if not calls:
+            S.fail("preprocessing_request_applied_before_the_fit", "apply_preprocessing never called", case=case,
+                   witness=wit)
+            return
+        c = calls[-1]
+        want_steps = kwargs.get("preprocessing", st["cur_steps"])
+        want_opts = kwargs.get("preprocessing_options", st["cur_opts"])
+        ok = (c["preprocessing"] is want_steps or I.truth(I.equals(c["preprocessing"], want_steps))) \
+            and (c["options"] is want_opts or I.truth(I.equals(c["options"], want_opts))) \
+            and c["fitters_before"] == 0
+        S.ensure("preprocessing_request_applied_before_the_fit", ok, case=case, witness=wit)
+
+    S.run(setup, post)
+    return S.finish(replay=lambda ob: replay(ob))
+
+
 # =================================================================== rate_quality
 def unit_rate_quality(prop, tier=None, seed=None):
     S = Session(prop, "rate_quality", f"{MOD}:Indentation.rate_quality")
@@ -620,9 +702,11 @@ def unit_get_initial(prop, tier=None, seed=None):
 def units_for(prop):
     if prop == "C03":
         return [Unit("fit_model", unit_fit_model, prop=prop),
+                Unit("fit_model.preprocessing_keywords", unit_fit_model_preproc, prop=prop),
                 Unit("apply_preprocessing", unit_apply_preprocessing, prop=prop)]
     if prop == "C06":
-        return [Unit("apply_preprocessing", unit_apply_preprocessing, prop=prop)]
+        return [Unit("apply_preprocessing", unit_apply_preprocessing, prop=prop),
+                Unit("fit_model.preprocessing_keywords", unit_fit_model_preproc, prop=prop)]
     if prop == "C09":
         return [Unit("rate_quality", unit_rate_quality, prop=prop),
                 Unit("apply_preprocessing", unit_apply_preprocessing, prop=prop)]
@@ -647,6 +731,22 @@ def replay(ob):
     import numpy as np
     oid = ob.oid
     P = ["compute_tip_position", "correct_force_offset", "correct_tip_offset"]
+    if "preprocessing_request_applied_before_the_fit" in oid:
+        O1 = {"correct_tip_offset": {"method": "deviation_from_baseline"}}
+        O2 = {"correct_tip_offset": {"method": "fit_constant_line"}}
+        a = _curve()
+        a.fit_model(preprocessing=P, preprocessing_options=O1, model_key="hertz_para")
+        a.fit_model(preprocessing_options=O2)
+        b = _curve()
+        b.fit_model(preprocessing=P, preprocessing_options=O2, model_key="hertz_para",
+                    params_initial=a.fit_properties["params_initial"])
+        same = np.array_equal(np.array(a["tip position"]), np.array(b["tip position"]))
+        ca, cb = (c.fit_properties["params_fitted"]["contact_point"].value for c in (a, b))
+        return {"confirmed": (not same) or ca != cb,
+                "input": "fit_model(preprocessing=P, preprocessing_options=O1); fit_model(preprocessing_options=O2)",
+                "observed": {"stored options": a.fit_properties["preprocessing_options"], "contact point": ca,
+                             "fresh curve with the stored settings": cb, "tip position columns equal": bool(same)},
+                "required": "the results shown are those of the stored preprocessing options"}
     if "rejected_request_leaves_the_raw_data" in oid:
         # a request rejected part-way, then look at the columns / fit without asking for a pipeline
         for bad in (["compute_tip_position", "correct_force_offset", "no_such_step"],
